@@ -201,6 +201,10 @@ struct FUN {
                 }
                 case F_SELF_SWAP_MEMBER:
                 case F_SELF_SWAP_FREE: {
+                    if (had && vf::ctx().excluded("inplace_function.self_swap")) { // known-finding exclusion: self-swap of a non-empty function
+                        vf::excluded_known("inplace_function.self_swap");
+                        break;
+                    }
                     auto before = snap(x);
                     F& alias    = x;
                     if (code == F_SELF_SWAP_MEMBER) {
@@ -249,6 +253,10 @@ struct FUN {
                     break;
                 }
                 case F_BIG_SELF_SWAP: {
+                    if (static_cast<bool>(g) && vf::ctx().excluded("inplace_function.self_swap")) {
+                        vf::excluded_known("inplace_function.self_swap");
+                        break;
+                    }
                     auto before = snap(g);
                     G& alias    = g;
                     g.swap(alias);
